@@ -32,17 +32,31 @@ class CallMixin:
             if r == "raise":
                 yield r, f, s
                 continue
-            if star and isinstance(f, tuple) and f and f[0] in ("bm", "func", "closure", "cls"):
-                # argument lists built at run time cannot be bound to parameters: the call is kept opaque (events of the callee are
-                # not seen; rules that need them will miss the instance and fail their floors rather than guess)
-                self.emit(s, fx, "NOINLINE", n, func=show(f), why="star-args")
-                yield "ok", ("call", f, ()), s
-                continue
             argnodes = list(n.args)
             for r2, args, s2 in self.ev_list(argnodes, s, fx):
                 if r2 == "raise":
                     yield r2, args, s2
                     continue
+                if star:
+                    # f(*t) with t a tuple of known length is f(t[0], .., t[n-1])
+                    flat, expanded = [], not any(k.arg is None for k in n.keywords)
+                    for an, at in zip(argnodes, args):
+                        if not isinstance(an, ast.Starred):
+                            flat.append(at)
+                        elif isinstance(at, tuple) and at[:1] in (("tuple",), ("list",)):
+                            flat.extend(at[1])
+                        elif is_const(at) and isinstance(at[1], tuple):
+                            flat.extend(const(x) for x in at[1])
+                        else:
+                            expanded = False
+                    if expanded:
+                        args = flat
+                    elif isinstance(f, tuple) and f and f[0] in ("bm", "func", "closure", "cls"):
+                        # argument lists built at run time cannot be bound to parameters: the call is kept opaque (events of the
+                        # callee are not seen; rules that need them will miss the instance and fail their floors rather than guess)
+                        self.emit(s2, fx, "NOINLINE", n, func=show(f), why="star-args")
+                        yield "ok", ("call", f, ()), s2
+                        continue
                 kwnodes = [k.value for k in n.keywords]
                 for r3, kvals, s3 in self.ev_list(kwnodes, s2, fx):
                     if r3 == "raise":
